@@ -16,7 +16,12 @@ import (
 
 var stats = vlib.NewStats("C16")
 
-func TestMain(m *testing.M) { vlib.Main(m, stats) }
+func TestMain(m *testing.M) {
+	// the process-wide instance (what the CLI uses, and what T.Time always books into) exists in every
+	// f1 process; here with iteration metrics on and no static labels
+	metrics.Init(true)
+	vlib.Main(m, stats)
+}
 
 const (
 	famSetup     = "form3_loadtest_setup"
@@ -341,10 +346,13 @@ type directCase struct {
 	Labels  labelSpec
 	Enabled bool
 	Epochs  [][]recOp // Reset() is called before every epoch but the first
+	// Recycle: the caller changes the map it configured the instance with once the instance exists
+	// (re-uses it for the next instance): the series keep the values they were configured with
+	Recycle bool
 }
 
 func (c directCase) key() string {
-	return fmt.Sprintf("%s|%v|%v", c.Labels, c.Enabled, c.Epochs)
+	return fmt.Sprintf("%s|%v|%v|%v", c.Labels, c.Enabled, c.Epochs, c.Recycle)
 }
 
 func (c directCase) nontrivial() bool {
@@ -356,6 +364,7 @@ var iterResults = []metrics.ResultType{metrics.SuccessResult, metrics.FailedResu
 func genDirect(t *rapid.T) directCase {
 	c := directCase{Labels: genLabels(t)}
 	c.Enabled = rapid.IntRange(0, 4).Draw(t, "iterationMetrics") != 0
+	c.Recycle = rapid.IntRange(0, 3).Draw(t, "recycleTheMap") == 0
 	nNames := rapid.IntRange(1, 3).Draw(t, "nNames")
 	names := []string{}
 	for i := 0; i < nNames; i++ {
@@ -395,7 +404,20 @@ func runDirect(c directCase) (msg string) {
 			msg = fmt.Sprintf("panic for a valid label map %s: %v", c.Labels, r)
 		}
 	}()
-	m := metrics.NewInstance(prometheus.NewRegistry(), c.Enabled, c.Labels.build())
+	configured := c.Labels.build()
+	m := metrics.NewInstance(prometheus.NewRegistry(), c.Enabled, configured)
+	if c.Recycle && configured != nil {
+		i := 0
+		for k := range configured {
+			if i%2 == 0 {
+				configured[k] = "recycled-" + k
+			} else {
+				delete(configured, k)
+			}
+			i++
+		}
+		configured["added_later"] = "x"
+	}
 	for e, ops := range c.Epochs {
 		if e > 0 {
 			m.Reset()
@@ -446,6 +468,9 @@ func recordDirect(section string, c directCase) {
 	}
 	if !c.Enabled {
 		cls = append(cls, "iteration-metrics-off")
+	}
+	if c.Recycle {
+		cls = append(cls, "configured-map-changed-afterwards")
 	}
 	stage := false
 	for _, ops := range c.Epochs {
